@@ -9,6 +9,7 @@ import (
 	"math"
 	"math/big"
 	"reflect"
+	"sort"
 	"strings"
 
 	"github.com/wader/fq/internal/verifharness/hlib"
@@ -263,6 +264,10 @@ func knownLawFailure(name string, x any) string {
 }
 
 func runLaw(o *hlib.Out, ev *evaluator, name string, xs []any) {
+	if strings.HasPrefix(name, "immut:") {
+		runImmut(o, ev, strings.TrimPrefix(name, "immut:"), xs)
+		return
+	}
 	l, ok := laws[name]
 	if !ok {
 		o.Verdict("BADOP", "law "+name)
@@ -310,6 +315,117 @@ func runLaw(o *hlib.Out, ev *evaluator, name string, xs []any) {
 		} else {
 			o.Verdict("PROPFAIL", op+" got="+got)
 		}
+	}
+}
+
+// ---------------------------------------------------------------------------------------------
+// Input immutability: no conversion function may change the value it is applied to
+// (`X as $x | [($x | try F catch null), $x]` must leave $x == X).  fq's encoders used to
+// normalise their argument in place (gojqx.NormalizeFn; repaired by /repo 295de0a0): to_xml
+// turned null attributes into "", to_csv / to_urlquery / to_url turned numbers into strings.
+// Checked for EVERY to_*/from_* function this harness exercises, on the generic shaped values
+// below (null, numbers, nested arrays and objects) and on inputs of the function's own domain.
+
+var immutFns = map[string]string{
+	"to_hex": "to_hex", "from_hex": "from_hex",
+	"to_base64": "to_base64", "from_base64": "from_base64",
+	"to_base64_url": `to_base64({encoding:"url"})`, "from_base64_url": `from_base64({encoding:"url"})`,
+	"to_base64_rawstd": `to_base64({encoding:"rawstd"})`, "from_base64_rawstd": `from_base64({encoding:"rawstd"})`,
+	"to_base64_rawurl": `to_base64({encoding:"rawurl"})`, "from_base64_rawurl": `from_base64({encoding:"rawurl"})`,
+	"to_urlencode": "to_urlencode", "from_urlencode": "from_urlencode",
+	"to_urlpath": "to_urlpath", "from_urlpath": "from_urlpath",
+	"to_urlquery": "to_urlquery", "from_urlquery": "from_urlquery",
+	"to_url": "to_url", "from_url": "from_url",
+	"to_iso8859_1": "to_iso8859_1", "from_iso8859_1": "from_iso8859_1",
+	"to_utf8": "to_utf8", "from_utf8": "from_utf8",
+	"to_utf16": "to_utf16", "from_utf16": "from_utf16",
+	"to_utf16le": "to_utf16le", "from_utf16le": "from_utf16le",
+	"to_utf16be": "to_utf16be", "from_utf16be": "from_utf16be",
+	"to_radix": "to_radix(16)", "from_radix": "from_radix(16)",
+	"to_md5": "to_md5", "to_sha1": "to_sha1", "to_sha256": "to_sha256", "to_sha512": "to_sha512",
+	"tojson": "tojson", "tojson_indent": "tojson({indent: 2})", "fromjson": "fromjson | tovalue",
+	"to_jq": "to_jq", "to_jq_indent": "to_jq({indent: 2})", "from_jq": "from_jq",
+	"to_yaml": "to_yaml", "from_yaml": "from_yaml | tovalue",
+	"to_toml": "to_toml", "from_toml": "from_toml | tovalue",
+	"to_xml": "to_xml", "to_xml_indent": "to_xml({indent: 2})", "from_xml": "from_xml | tovalue", "from_xml_array": "from_xml({array: true}) | tovalue",
+	"to_csv": "to_csv", "from_csv": "from_csv | tovalue",
+}
+
+func immutNames() []string {
+	ns := make([]string, 0, len(immutFns))
+	for n := range immutFns {
+		ns = append(ns, n)
+	}
+	sort.Strings(ns)
+	return ns
+}
+
+func runImmut(o *hlib.Out, ev *evaluator, fn string, xs []any) {
+	f, ok := immutFns[fn]
+	if !ok {
+		o.Verdict("BADOP", "law immut:"+fn)
+		return
+	}
+	ops := make([]string, len(xs))
+	snap := make([]string, len(xs))
+	for i, x := range xs {
+		snap[i] = wireOf(x)
+		ops[i] = fmt.Sprintf("law immut:%s %s", fn, snap[i])
+	}
+	res := ev.run(fmt.Sprintf(". as $x | [[$x | try (%s) catch null], $x]", f), xs)
+	for i := range xs {
+		o.Stat("law_immut", 1)
+		var got string
+		switch r := res[i].(type) {
+		case []any:
+			if len(r) == 2 {
+				got = wireOf(r[1])
+			} else {
+				got = fmt.Sprintf("?len=%d", len(r))
+			}
+		case panicMark:
+			got = "panic"
+		default:
+			got = fmt.Sprintf("?%T", r)
+		}
+		// both the value seen by jq as $x afterwards and the Go object that was passed in
+		after := wireOf(xs[i])
+		if got == snap[i] && after == snap[i] {
+			o.Verdict("OK", ops[i])
+			o.Class(ops[i])
+			continue
+		}
+		if len(got) > 300 {
+			got = got[:300] + "…"
+		}
+		if len(after) > 300 {
+			after = after[:300] + "…"
+		}
+		o.Verdict("PROPFAIL", ops[i]+" got="+got+" input-object-after="+after)
+	}
+}
+
+// values that a normalising encoder would rewrite: null, numbers, nested arrays and objects,
+// in the shapes the structured encoders accept
+func immutShaped() []any {
+	big300, _ := new(big.Int).SetString("2037035976334486086268445688409378161051468393665936250636140449354381299763336706183397376", 10)
+	return []any{
+		nil, true, 1, -5, big300, "", "a b+c/é", "ff", "Zm9v", "%41+", "[1,null]", "{\"a\":null}", "a: [1, null]\n", "a = [1, 2]\n", "<a k=\"1\">t</a>", "1,2\n,x\n", "a=1&b=2&b=3", "http://u:p@h/p?a=1#f",
+		[]any{}, map[string]any{},
+		[]any{1, 2, 255}, []any{nil, 1, "x", []any{nil, 2}, map[string]any{"k": nil, "n": 3}},
+		// xml, array form and object form
+		[]any{"a", nil, []any{}},
+		[]any{"a", map[string]any{"k": 1, "#text": nil, "b": true}, []any{[]any{"b", nil, []any{}}, []any{"c", map[string]any{"n": 2}, []any{}}}},
+		map[string]any{"a": map[string]any{"@k": 1, "#text": nil, "b": []any{nil, 2, map[string]any{"@x": 3}}}},
+		map[string]any{"a": nil},
+		// csv
+		[]any{[]any{1, 2}}, []any{[]any{nil, "x"}, []any{true, 3}}, []any{[]any{[]any{1}, map[string]any{"a": nil}}},
+		// url query / url
+		map[string]any{"a": 1, "b": []any{2, nil, "x"}, "c": nil},
+		map[string]any{"scheme": "http", "host": "h", "path": "/p", "user": map[string]any{"username": "u", "password": nil}, "query": map[string]any{"a": 1, "b": []any{2, nil}}, "fragment": 3},
+		// yaml / toml / json / jq
+		map[string]any{"a": []any{1, nil, map[string]any{"b": []any{nil}}}, "n": nil, "i": -7},
+		map[string]any{"t": map[string]any{"x": 1, "y": []any{1, 2}}, "arr": []any{map[string]any{"k": 1}, map[string]any{"k": 2}}},
 	}
 }
 
@@ -477,5 +593,27 @@ func genLaws(cfg hlib.Config, r *hlib.Rand, o *hlib.Out, ev *evaluator) {
 	}
 	for _, name := range []string{"yaml", "toml", "xml", "csv", "jqlit", "jqlit2", "jsonind", "urlquery", "jsonf"} {
 		runLaw(o, ev, name, batch[name])
+	}
+
+	// input immutability of every conversion function: the shaped values, plus values of each
+	// structured serialiser's domain and random JSON values
+	nr := 40
+	if cfg.Thorough() {
+		nr = 400
+	}
+	ig := &jsonGen{r: r, intBits: 70}
+	for _, fn := range immutNames() {
+		xs := immutShaped()
+		for k := 0; k < nr; k++ {
+			xs = append(xs, ig.value(r.Range(0, 3)))
+		}
+		for _, dom := range []string{"xml", "csv", "urlquery", "yaml", "toml"} {
+			b := batch[dom]
+			for k := 0; k < nr/4 && len(b) > 0; k++ {
+				// a fresh copy: the batch values were already passed to fq above
+				xs = append(xs, parseWire(wireOf(b[r.Intn(len(b))])))
+			}
+		}
+		runImmut(o, ev, fn, xs)
 	}
 }
